@@ -229,6 +229,17 @@ def check_case(case: dict) -> Outcome:
                         others = [q for t, qs in solo.items() if t != title and exp.get(t) for q in qs]
                         if not any(q in others for q in solo[title]):
                             out.fail("C09:unexpected-output", f"rule {title} is referenced only without generate but emits {solo[title]}")
+            # the same for correlation rules that other correlation rules refer to: their own query (as seen by the
+            # conversion callback) is emitted iff they are unreferenced or referenced with generate
+            for d in docs:
+                title = d["title"]
+                if "correlation" in d and exp.get(title) is not None and base[2].get(title):
+                    own = base[2][title]
+                    present = all(q in base[1] for q in own)
+                    if exp[title] and not present:
+                        out.fail("C09:missing-output:correlation", f"correlation rule {title} must emit its query but output is {base[1]}")
+                    if not exp[title] and present:
+                        out.fail("C09:unexpected-output:correlation", f"correlation rule {title} is referenced only without generate but emits {own}")
     finally:
         if tmpdir:
             shutil.rmtree(tmpdir, ignore_errors=True)
